@@ -883,6 +883,68 @@ def make_epub(opf_dir, docs, spine):
     return buf
 
 
+ODF_NS = ('xmlns:office="urn:oasis:names:tc:opendocument:xmlns:office:1.0" '
+          'xmlns:text="urn:oasis:names:tc:opendocument:xmlns:text:1.0" '
+          'xmlns:table="urn:oasis:names:tc:opendocument:xmlns:table:1.0" '
+          'xmlns:draw="urn:oasis:names:tc:opendocument:xmlns:drawing:1.0" '
+          'xmlns:svg="urn:oasis:names:tc:opendocument:xmlns:svg-compatible:1.0" '
+          'xmlns:presentation="urn:oasis:names:tc:opendocument:xmlns:presentation:1.0"')
+
+def _odf_zip(mime, content):
+    buf = io.BytesIO()
+    with zipfile.ZipFile(buf, "w") as z:
+        z.writestr(zipfile.ZipInfo("mimetype"), mime)
+        z.writestr("META-INF/manifest.xml", '<?xml version="1.0" encoding="UTF-8"?><manifest:manifest '
+                   'xmlns:manifest="urn:oasis:names:tc:opendocument:xmlns:manifest:1.0"><manifest:file-entry '
+                   f'manifest:full-path="/" manifest:media-type="{mime}"/><manifest:file-entry '
+                   'manifest:full-path="content.xml" manifest:media-type="text/xml"/></manifest:manifest>')
+        z.writestr("content.xml", content)
+    buf.seek(0)
+    return buf
+
+def _odp_shape(node, pos):
+    """node: ("frame", text) | ("group", [nodes])"""
+    if node[0] == "frame":
+        pos[0] += 1
+        return (f'<draw:frame svg:x="1cm" svg:y="{pos[0]}cm" svg:width="8cm" svg:height="1cm"><draw:text-box>'
+                f'<text:p>{node[1]}</text:p></draw:text-box></draw:frame>')
+    return "<draw:g>" + "".join(_odp_shape(n, pos) for n in node[1]) + "</draw:g>"
+
+def make_odp(slides):
+    """slides: list of lists of shape nodes."""
+    pages = []
+    for i, nodes in enumerate(slides, 1):
+        pos = [0]
+        pages.append(f'<draw:page draw:name="page{i}">' + "".join(_odp_shape(n, pos) for n in nodes) + '</draw:page>')
+    return _odf_zip("application/vnd.oasis.opendocument.presentation",
+                    f'<?xml version="1.0" encoding="UTF-8"?><office:document-content {ODF_NS} office:version="1.2"><office:body>'
+                    '<office:presentation>' + "".join(pages) + '</office:presentation></office:body></office:document-content>')
+
+def _ods_cell(v, repeat=1):
+    rep = f' table:number-columns-repeated="{repeat}"' if repeat > 1 else ""
+    if v is None:
+        return f"<table:table-cell{rep}/>"
+    if isinstance(v, bool):
+        b = "true" if v else "false"
+        return f'<table:table-cell{rep} office:value-type="boolean" office:boolean-value="{b}"><text:p>{b.upper()}</text:p></table:table-cell>'
+    if isinstance(v, (int, float)):
+        return f'<table:table-cell{rep} office:value-type="float" office:value="{v}"><text:p>{v}</text:p></table:table-cell>'
+    return f'<table:table-cell{rep} office:value-type="string"><text:p>{v}</text:p></table:table-cell>'
+
+def make_ods(sheets):
+    """sheets: list of (name, rows); row = list of cell values (None, bool, int, float, str)."""
+    tables = []
+    for name, rows in sheets:
+        body = "".join("<table:table-row>" + "".join(_ods_cell(v) for v in row) + "</table:table-row>" for row in rows)
+        tables.append(f'<table:table table:name="{name}">{body}</table:table>')
+    return _odf_zip("application/vnd.oasis.opendocument.spreadsheet",
+                    f'<?xml version="1.0" encoding="UTF-8"?><office:document-content {ODF_NS} office:version="1.2"><office:body>'
+                    '<office:spreadsheet>' + "".join(tables) + '</office:spreadsheet></office:body></office:document-content>')
+
+
+TOKEN_RE = re.compile(r"T[a-z]\d+x\d+(?:a\d+)?q")
+
+
 # ----------------------------------------------------------------------------- (c) end to end
 def run_end_to_end(ctx):
     import sharepoint2text
@@ -954,9 +1016,13 @@ def run_end_to_end(ctx):
             out.append([rng.choice(["tok", "tok", "blank", "ws", "dup1", "dupfar"]) for _ in range(rng.randint(1, 6))])
         return out[:count]
 
+    docno = [0]
+    history = []      # (where, extract thunk, first observation): replayed at the end in another order
+
     def tokens_for(kinds):
         """-> per position the set of tokens its text must contain (dup1 = same content as the previous text unit,
-        dupfar = same content as the FIRST text unit)."""
+        dupfar = same content as the FIRST text unit).  Tokens are unique per generated document of the whole run."""
+        docno[0] += 1
         exp, texts = [], []
         for j, k in enumerate(kinds, 1):
             if k == "dup1" and texts:
@@ -964,19 +1030,19 @@ def run_end_to_end(ctx):
             elif k == "dupfar" and texts:
                 exp.append(set(texts[0]))
             elif k in ("tok", "dup1", "dupfar"):
-                exp.append({f"Tk{j}q"})
+                exp.append({f"Tk{docno[0]}x{j}q"})
             else:
                 exp.append(set())
             if exp[-1]:
                 texts.append(sorted(exp[-1]))
         return exp
 
-    def expect_units(where, c, expected, replay):
-        """expected[k-1]: set of tokens unit k must hold (exactly those of the document's token universe), or None when
-        source position k legitimately yields no unit."""
+    def expect_units(where, c, expected, replay, optional=None, optional_key=None, optional_what="", exact_count=False):
+        """expected[k-1]: set of tokens unit k must hold — exactly those, of ALL tokens of this run (so text leaking in from
+        another unit or from a document extracted earlier in this process is seen) — or None when source position k
+        legitimately yields no unit.  optional[k-1]: tokens whose absence is reported under optional_key."""
         us, ft = observe(c)
         ctx.case((where, repr(expected)), len(expected) >= 2, kind=where)
-        universe = set().union(*[e for e in expected if e]) if any(expected) else set()
         want_nums = [k for k, e in enumerate(expected, 1) if e is not None]
         nums = [u[0] for u in us]
         rp = dict(replay, units=us, expected_tokens=[sorted(e) if e is not None else None for e in expected])
@@ -985,12 +1051,21 @@ def run_end_to_end(ctx):
                         f"positions with a unit {want_nums}", rp)
         else:
             for (n_, tx), k in zip(us, want_nums):
-                have = {tk for tk in universe if tk in tx}
-                if have != expected[k - 1]:
+                found = TOKEN_RE.findall(tx)
+                have = set(found)
+                opt = optional[k - 1] if optional else set()
+                if have - opt != expected[k - 1] - opt or not have <= expected[k - 1]:
                     ctx.finding(f"{where}:unit-text-not-source-text", f"{type(c).__name__}: unit {k} holds tokens {sorted(have)}, "
                                 f"source {k} has {sorted(expected[k - 1])}", rp)
                     break
+                if exact_count and len(found) != len(have):
+                    ctx.finding(f"{where}:unit-text-repeated", f"{type(c).__name__}: unit {k} returns a source text more than "
+                                f"once: {found}", rp)
+                    break
+                if opt - have:
+                    ctx.finding(optional_key, optional_what + f" (unit {k}: missing {sorted(opt - have)})", rp)
         oracle_units(ctx, where, type(c).__name__, us, ft, True, (), None, replay)
+        return us, ft
 
     for kinds in layouts(ctx.n(32, 300)):
         exp = tokens_for(kinds)
@@ -1004,7 +1079,8 @@ def run_end_to_end(ctx):
                         f"{len(kinds)}-page PDF {kinds}", {"pdf": data, "kinds": kinds})
             continue
         for c in outs:
-            expect_units("e2e:pdf", c, exp, {"page_kinds": kinds, "pdf": data})
+            ob = expect_units("e2e:pdf", c, exp, {"page_kinds": kinds, "pdf": data})
+            history.append(("e2e:pdf", (lambda d=data: pdf_extractor.read_pdf(io.BytesIO(d), "x.pdf")), ob, {"pdf": data}))
 
     # PPTX: sldIdLst order, @id order, rId order, Relationship element order and file-name order permuted independently;
     # duplicated slides (identical XML incl. shape ids), identical titles, same shape id with different text
@@ -1018,14 +1094,16 @@ def run_end_to_end(ctx):
         rids = [f"rId{x}" for x in perm(list(range(2, 2 + n)))]
         rel_order = perm(list(range(n)))
         same_title = rng.random() < 0.4
+        docno[0] += 1
         slides, exp, prev = [], [], []
         for j, k in enumerate(kinds, 1):
             if k in ("dup1", "dupfar") and prev:
                 shapes = list(prev[-1] if k == "dup1" else prev[0])      # identical XML incl. shape ids and texts
             elif k in ("tok", "dup1", "dupfar"):
-                shapes = [(2, "CommonTitleq" if same_title else f"Tk{j}q title"), (3, f"Tb{j}q body")]
+                d_ = docno[0]
+                shapes = [(2, f"Tt{d_}x0q" if same_title else f"Tk{d_}x{j}q title"), (3, f"Tb{d_}x{j}q body")]
                 if rng.random() < 0.3:
-                    shapes.append((rng.choice([3, 4]), f"Tc{j}q extra"))  # same shape id, different text
+                    shapes.append((rng.choice([3, 4]), f"Tc{d_}x{j}q extra"))  # same shape id, different text
             elif k == "ws":
                 shapes = [(2, "  ")]
             else:
@@ -1043,7 +1121,8 @@ def run_end_to_end(ctx):
                         f"{n}-slide PPTX", rp)
             continue
         for c in outs:
-            expect_units("e2e:pptx", c, exp, rp)
+            ob = expect_units("e2e:pptx", c, exp, rp)
+            history.append(("e2e:pptx", (lambda d=doc.getvalue(): pptx_extractor.read_pptx(io.BytesIO(d), "x.pptx")), ob, rp))
 
     # EPUB: OPF in the root / one / two levels down; hrefs plain, './', '../', 'x/../', absolute; spine order differs
     # from manifest order; a document referenced twice; unreadable items (missing file / not in the manifest)
@@ -1053,6 +1132,8 @@ def run_end_to_end(ctx):
         pre = opf_dir + "/" if opf_dir else ""
         k = rng.randint(1, 6)
         docs = []
+        docno[0] += 1
+        d_ = docno[0]
         for j in range(1, k + 1):
             kind = rng.choice(["ok", "ok", "ok", "ok", "blank", "missing-file", "not-in-manifest", "same"])
             styles = ["plain", "dot", "sub", "updown", "abs"] + (["parent"] if opf_dir else [])
@@ -1070,10 +1151,10 @@ def run_end_to_end(ctx):
                 href, path = "/root_docs/" + name, "root_docs/" + name
             else:
                 href, path = "../text/" + name, (parent + "/" if parent else "") + "text/" + name
-            body = {"ok": f"<p>Tk{j}q text</p>", "same": "<p>Sameq text</p>", "blank": "<p> </p>"}.get(kind, f"<p>Tk{j}q text</p>")
+            body = {"ok": f"<p>Tk{d_}x{j}q text</p>", "same": f"<p>Ts{d_}x0q text</p>", "blank": "<p> </p>"}.get(kind, f"<p>Tk{d_}x{j}q text</p>")
             docs.append({"id": f"c{j}", "href": None if kind == "not-in-manifest" else href,
                          "path": None if kind == "missing-file" else path, "body": body, "kind": kind, "style": st,
-                         "tokens": {"ok": {f"Tk{j}q"}, "same": {"Sameq"}, "blank": set()}.get(kind)})
+                         "tokens": {"ok": {f"Tk{d_}x{j}q"}, "same": {f"Ts{d_}x0q"}, "blank": set()}.get(kind)})
         spine = [d["id"] for d in docs]
         rng.shuffle(spine)
         if rng.random() < 0.4:
@@ -1083,12 +1164,123 @@ def run_end_to_end(ctx):
         exp = [by_id[s_]["tokens"] for s_ in spine]
         rp = {"opf_dir": opf_dir, "spine": spine,
               "manifest": [(d["id"], d["href"], d["path"], d["kind"]) for d in manifest_docs]}
+        edoc = make_epub(opf_dir, manifest_docs, spine).getvalue()
         try:
-            outs = list(epub_extractor.read_epub(make_epub(opf_dir, manifest_docs, spine), "x.epub"))
+            outs = list(epub_extractor.read_epub(io.BytesIO(edoc), "x.epub"))
         except Exception:  # noqa — failure surface: C01
             continue
         for c in outs:
-            expect_units("e2e:epub", c, exp, rp)
+            ob = expect_units("e2e:epub", c, exp, rp)
+            history.append(("e2e:epub", (lambda d=edoc: epub_extractor.read_epub(io.BytesIO(d), "x.epub")), ob, rp))
+    # ODP: top-level text boxes and shape groups (draw:g, nested), several groups per slide and per deck, blank and
+    # duplicated slides.  Grouped text is expected in its slide's unit (known finding on the current code: it is in no
+    # unit); it must never show up in another unit, twice, or in a later extraction of the same process.
+    from sharepoint2text.parsing.extractors.open_office import odp_extractor, ods_extractor
+    for kinds in layouts(ctx.n(30, 300)):
+        docno[0] += 1
+        d_ = docno[0]
+        slides, exp, opt, prev = [], [], [], []
+        for j, k in enumerate(kinds, 1):
+            if k in ("dup1", "dupfar") and prev:
+                nodes, e_, o_ = prev[-1] if k == "dup1" else prev[0]
+            elif k in ("tok", "dup1", "dupfar"):
+                nodes, e_, o_, a = [], set(), set(), 0
+                for _ in range(rng.randint(0, 2)):
+                    a += 1; nodes.append(("frame", f"Tk{d_}x{j}a{a}q top")); e_.add(f"Tk{d_}x{j}a{a}q")
+                for _ in range(rng.choice([0, 1, 1, 2])):
+                    inner = []
+                    for _ in range(rng.randint(1, 2)):
+                        a += 1; inner.append(("frame", f"Tg{d_}x{j}a{a}q grouped")); o_.add(f"Tg{d_}x{j}a{a}q")
+                    if rng.random() < 0.3:
+                        a += 1; inner.append(("group", [("frame", f"Tg{d_}x{j}a{a}q nested")])); o_.add(f"Tg{d_}x{j}a{a}q")
+                    nodes.insert(rng.randint(0, len(nodes)), ("group", inner))
+                if nodes:
+                    prev.append((nodes, e_, o_))
+            elif k == "ws":
+                nodes, e_, o_ = [("frame", "  ")], set(), set()
+            else:
+                nodes, e_, o_ = [], set(), set()
+            slides.append(nodes); exp.append(set(e_) | set(o_)); opt.append(set(o_))
+        odoc = make_odp(slides).getvalue()
+        rp = {"slide_kinds": kinds, "slides": slides}
+        try:
+            outs = list(odp_extractor.read_odp(io.BytesIO(odoc), "x.odp"))
+        except Exception as e:  # noqa
+            ctx.finding("e2e:odp:generated-document-rejected", f"read_odp raised {type(e).__name__} on a generated deck", rp)
+            continue
+        for c in outs:
+            ob = expect_units("e2e:odp", c, exp, rp, optional=opt, optional_key="odp:grouped-shape-text-in-no-unit",
+                              optional_what="ODP: text boxes inside a shape group (draw:g) are returned in no unit",
+                              exact_count=True)
+            history.append(("e2e:odp", (lambda d=odoc: odp_extractor.read_odp(io.BytesIO(d), "x.odp")), ob, rp))
+
+    # spreadsheets: typed cells incl. the falsy boundary values 0 / 0.0 / False / "0" in the interior and on the trailing
+    # edge (last rows / columns consisting only of them), a sheet holding a single 0, empty sheets, identical sheets.
+    # Oracle: the cell texts of sheet k are returned in unit k EXACTLY (multiset of whitespace-separated tokens).
+    from collections import Counter
+
+    def gen_sheet(j, d_, strings_ok=True):
+        shape = rng.choice(["free", "free", "zero-tail-row", "zero-tail-col", "single-zero", "empty", "false-tail"])
+        if shape == "empty":
+            return shape, []
+        if shape == "single-zero":
+            return shape, [[rng.choice([0, False, 0.0] if strings_ok else [0, False])]]
+        nr, nc = rng.randint(1, 4), rng.randint(1, 3)
+        falsy = [0, False, 0, 0.0] if strings_ok else [0, False]
+        a = [0]
+
+        def val():
+            a[0] += 1
+            return rng.choice([f"Tk{d_}x{j}a{a[0]}q", 100 * j + a[0], True, None] + falsy + (["0"] if strings_ok else []))
+        rows = [[val() for _ in range(nc)] for _ in range(nr)]
+        if shape == "zero-tail-row":
+            rows += [[rng.choice(falsy) for _ in range(nc)] for _ in range(rng.randint(1, 2))]
+        elif shape == "zero-tail-col":
+            rows = [r + [rng.choice(falsy)] for r in rows]
+        elif shape == "false-tail":
+            rows = [r + [False] for r in rows] + [[False] * (nc + 1)]
+        return shape, rows
+
+    def sheet_cover(where, us, sheets, disp, rp):
+        for (num, tx), (name, rows) in zip(us, sheets):
+            lines = tx.split("\n")
+            body = "\n".join(lines[1:]) if lines and lines[0].strip() == name else tx
+            got = Counter(body.split())
+            want = Counter(disp(v) for row in rows for v in row if v is not None and disp(v) != "")
+            if got != want:
+                miss, extra = want - got, got - want
+                ctx.finding(f"{where}:sheet-text-not-covered-exactly", f"sheet {num} ({name}): cell texts missing from its unit "
+                            f"{dict(miss)}, not from this sheet {dict(extra)}", dict(rp, sheet=name, rows=rows, unit_text=tx))
+                return
+
+    for i in range(ctx.n(30, 300)):
+        docno[0] += 1
+        d_ = docno[0]
+        k = rng.randint(1, 5)
+        sheets, shapes = [], []
+        for j in range(1, k + 1):
+            if sheets and rng.random() < 0.2:
+                shapes.append("same-as-previous"); sheets.append((f"S{j}", [list(r) for r in sheets[-1][1]]))
+                continue
+            sh, rows = gen_sheet(j, d_)
+            shapes.append(sh); sheets.append((f"S{j}", rows))
+        sdoc = make_ods(sheets).getvalue()
+        rp = {"sheet_shapes": shapes, "sheets": sheets}
+        try:
+            outs = list(ods_extractor.read_ods(io.BytesIO(sdoc), "x.ods"))
+        except Exception as e:  # noqa
+            ctx.finding("e2e:ods:generated-document-rejected", f"read_ods raised {type(e).__name__} on a generated workbook", rp)
+            continue
+        for c in outs:
+            us, ft = observe(c)
+            ctx.case(("e2e-ods", repr(sheets)), k >= 2, kind="e2e:ods")
+            if [n for n, _ in us] != list(range(1, k + 1)):
+                ctx.finding("e2e:ods:unit-numbers-not-source-positions", f"OdsContent: unit numbers {[n for n, _ in us]} for {k} "
+                            "sheets", dict(rp, units=us))
+                continue
+            oracle_units(ctx, "e2e:ods", type(c).__name__, us, ft, True, (), k, rp)
+            sheet_cover("e2e:ods", us, sheets, lambda v: ("true" if v else "false") if isinstance(v, bool) else str(v), rp)
+            history.append(("e2e:ods", (lambda d=sdoc: ods_extractor.read_ods(io.BytesIO(d), "x.ods")), (us, ft), rp))
     try:
         import openpyxl
     except Exception:  # noqa
@@ -1118,6 +1310,52 @@ def run_end_to_end(ctx):
                 us, ft = observe(c)
                 ctx.case(("e2e-xlsx", i, k), k >= 2, kind="e2e:xlsx")
                 oracle_units(ctx, "e2e:xlsx", type(c).__name__, us, ft, True, marks, k, {"sheets": k, "marks": marks})
+        # typed cells with falsy boundary values (0 / False) in the interior and on the trailing edge
+        for i in range(ctx.n(15, 150)):
+            docno[0] += 1
+            d_ = docno[0]
+            k = rng.randint(1, 4)
+            sheets, shapes = [], []
+            for j in range(1, k + 1):
+                sh, rows = gen_sheet(j, d_, strings_ok=False)
+                if rows:   # an empty header cell is rendered as 'Unnamed: n' by the XLSX text builder (C02/C13 territory)
+                    rows[0] = [f"Th{d_}x{j}a{c_}q" if v is None else v for c_, v in enumerate(rows[0])]
+                shapes.append(sh); sheets.append((f"S{j}", rows))
+            wb = openpyxl.Workbook()
+            wb.remove(wb.active)
+            for name, rows in sheets:
+                ws = wb.create_sheet(name)
+                for r_, row in enumerate(rows, 1):
+                    for c_, v in enumerate(row, 1):
+                        if v is not None:
+                            ws.cell(row=r_, column=c_, value=v)
+            buf = io.BytesIO(); wb.save(buf)
+            xdoc = buf.getvalue()
+            rp = {"sheet_shapes": shapes, "sheets": sheets}
+            for c in xlsx_extractor.read_xlsx(io.BytesIO(xdoc), "x.xlsx"):
+                us, ft = observe(c)
+                ctx.case(("e2e-xlsx-typed", repr(sheets)), k >= 2, kind="e2e:xlsx-typed")
+                if [n for n, _ in us] != list(range(1, k + 1)):
+                    ctx.finding("e2e:xlsx:unit-numbers-not-source-positions", f"XlsxContent: unit numbers {[n for n, _ in us]} "
+                                f"for {k} sheets", dict(rp, units=us))
+                    continue
+                oracle_units(ctx, "e2e:xlsx", type(c).__name__, us, ft, True, (), k, rp)
+                sheet_cover("e2e:xlsx", us, sheets, lambda v: str(v), rp)
+                history.append(("e2e:xlsx", (lambda d=xdoc: xlsx_extractor.read_xlsx(io.BytesIO(d), "x.xlsx")), (us, ft), rp))
+    # history independence: every generated document extracted again, in another order, later in the same process,
+    # must give the same units and full text as the first time (caches, module-level or default-argument state)
+    order = list(range(len(history)))
+    rng.shuffle(order)
+    for idx in order[: ctx.n(120, 1200)]:
+        where, thunk, first, rp = history[idx]
+        try:
+            again = [observe(c) for c in thunk()]
+        except Exception as e:  # noqa
+            again = [("raised", type(e).__name__)]
+        ctx.case((where, "again", idx), False, kind=where + ":again")
+        if not again or again[0] != first:
+            ctx.finding(f"{where}:result-depends-on-extraction-history", f"{where}: extracting the same document again later in "
+                        f"the process gives different units/full text", dict(rp, first=first, again=again[:1]))
 
 
 def run(ctx):
@@ -1125,7 +1363,13 @@ def run(ctx):
     logging.disable(logging.CRITICAL)
     ctx.rule = ("random instances of every unit-bearing dataclass (0..6 pages/slides/sheets/chapters, empty and "
                 "whitespace-only units, exotic whitespace), generated PPT record streams, RTF documents with \\page, "
-                "mailboxes, DOCX paragraph lists, all fixtures; non-trivial = >=2 units or a heading structure")
+                "mailboxes, DOCX paragraph lists, all fixtures; non-trivial = >=2 units or a heading structure.  End-to-end "
+                "generated documents (sampled, not exhaustive): PDF/PPTX/EPUB/ODP/ODS/XLSX with 1..6 units, blank / "
+                "whitespace-only / duplicated units, run-unique tokens per document (text leaking between units or between "
+                "documents extracted in one process is detected), ODP shape groups (nested, several per slide), spreadsheet "
+                "cells with falsy boundary values (0, 0.0, False, '0') in the interior and as trailing rows/columns with an "
+                "exact multiset cover oracle, and a replay of every generated document later in the same process in another "
+                "order (history independence)")
     ctx.trusted += [
         "G-dump: tools/props/c03.py prints str.isspace()/strip() set of the running CPython and ppt_extractor._TITLE_TYPES/"
         "_BODY_TYPES/PPT_TEXT_TYPE_NOTES as Coq literals",
